@@ -38,8 +38,8 @@ func headerGet(v ssa.Value) (name string, ok bool) {
 
 func runC08(c *eng.Ctx, tier string) {
 	p := c.P
-	sj := p.Func("server", "serveJSON")
-	getIdentity := p.Method("server", "Server", "getIdentity")
+	sj := anchor(p, "server", "serveJSON")
+	getIdentity := anchor(p, "server", "(*Server).getIdentity")
 	if sj == nil || getIdentity == nil || len(sj.Params) != 4 {
 		c.Undecided("anchor", nil, 0, "server.serveJSON / (*Server).getIdentity", "anchors do not resolve")
 		return
@@ -499,7 +499,7 @@ func c08Identity(c *eng.Ctx, f *ssa.Function) {
 
 func c08Client(c *eng.Ctx) {
 	p := c.P
-	do := p.Func(setecPkg, "do")
+	do := anchor(p, setecPkg, "do")
 	if do == nil {
 		c.Undecided("R-C08-6", nil, 0, "setec.do", "anchor does not resolve")
 		return
